@@ -43,6 +43,21 @@ Theorem ds_input_eq_rfc : forall owner flags protocol alg key dtype,
 Proof. exact make_ds_eq_rfc. Qed.
 Print Assumptions ds_input_eq_rfc.
 
+(* make_ds / make_cds with the owner given as text (relative text completed with `origin`, "@" = the
+   origin): the name that dns.name.from_text(text, origin) denotes is the one that is digested *)
+Theorem ds_text_owner_eq_rfc : forall text origin owner flags protocol alg key dtype,
+  from_text text origin = Ok owner ->
+  Valid owner -> is_absolute owner = true ->
+  0 <= flags < 65536 -> 0 <= protocol < 256 -> 0 <= alg < 256 -> bytes_ok key ->
+  dtype = 1 \/ dtype = 2 \/ dtype = 4 ->
+  make_ds_text text origin flags protocol alg key dtype =
+  Ok (rfc_ds_input owner flags protocol alg key,
+      (let rdata := u16 flags ++ [protocol; alg] ++ key in
+       if alg =? 1 then rfc_keytag_alg1 rdata else rfc_keytag rdata),
+      alg, dtype).
+Proof. exact make_ds_text_eq_rfc. Qed.
+Print Assumptions ds_text_owner_eq_rfc.
+
 (* nsec3_hash == RFC 5155 section 5 (iterated hash, base32hex) for every hash function *)
 Theorem nsec3_eq_rfc : forall (H : bytes -> bytes) domain salt iterations,
   Valid domain -> is_absolute domain = true ->
@@ -206,6 +221,12 @@ Example keytag_hyps_satisfiable :
   key_id 257 3 8 [1; 2; 3; 4; 5] = Ok (rfc_keytag (u16 257 ++ [3; 8] ++ [1; 2; 3; 4; 5]))
   /\ key_id 256 3 1 [9; 8; 7] = Ok (9 * 256 + 8).
 Proof. split; vm_compute; reflexivity. Qed.
+
+Example ds_text_hyps_satisfiable :
+  from_text [99] (Some [[69; 120]; []]) = Ok [[99]; [69; 120]; []] /\
+  from_text [64] (Some [[69; 120]; []]) = Ok [[69; 120]; []] /\
+  make_ds_text [99] (Some [[69; 120]; []]) 256 3 8 [1; 2] 2 = Ok ([1; 99; 2; 101; 120; 0; 1; 0; 3; 8; 1; 2], 1290, 8, 2).
+Proof. repeat split; vm_compute; reflexivity. Qed.
 
 Example ds_hyps_satisfiable :
   Valid [[69; 120]; []] /\ is_absolute [[69; 120]; []] = true /\
